@@ -207,6 +207,15 @@ func runC01(c *Ctx) {
 	c.Rule("R01.7", "E5", "every CoreState wrapper method forwards ctx, target and options unchanged to the same-named method of the wrapped state; the delegate is selected by the target's own namespace/type", 40)
 	wrapperDelegation(c, "R01.7")
 	dispatchKeys(c, "R01.7")
+
+	// ---------- R01.9 registries
+	c.Rule("R01.9", "E1", "get-or-create registries (namespace -> state, type -> collection) hand out one instance per key: a freshly built instance is returned only through an atomic insert-if-absent", 2)
+	registryAtomic(c, "R01.9", p.Method("pkg/state/impl/namespaced", "State", "getNamespace"), "dyn:*param#0.builder")
+	registryAtomic(c, "R01.9", p.Method(pkgInmem, "State", "getCollection"), pkgInmem+".NewResourceCollection")
+
+	// ---------- R01.10 persistent-backed: reads see committed state only after a successful load
+	c.Rule("R01.10", "E1", "persistent-backed state: every operation is gated by loadStore()==nil; `loaded` is set only after Load()==nil (a failed load is retried, never papered over)", 11)
+	loadGate(c, "R01.10")
 }
 
 func c01Effects(c *Ctx, rule string, fCreate, fUpdate, fDestroy *ssa.Function) {
@@ -743,6 +752,8 @@ func checkDelegation(c *Ctx, rule, typ, mname string, f *ssa.Function) {
 		return
 	}
 
+	c.delegateOnce(rule, f, "(pkg/state.*)."+mname)
+
 	nparams := len(f.Params)
 
 	for _, d := range delegs {
@@ -909,4 +920,134 @@ func dispatchKeys(c *Ctx, rule string) {
 			c.Check(p.ArgDesc(call, 1) == "param#1", rule, pkgInmem+".State.getCollection :: map keyed by the requested type ("+call.Common().StaticCallee().Name()+")", call.Pos(), "yes", "key is "+p.ArgDesc(call, 1))
 		}
 	}
+}
+
+// registryAtomic: f is a get-or-create lookup. Every value it returns is either what the shared
+// map handed back (Load / LoadOrStore / a map lookup), or a fresh instance that was inserted
+// under a lock after a lookup that showed the key absent with no unlock in between
+// (double-checked creation). Returning a fresh instance any other way lets two callers that race
+// on the first access of a key each get their own instance.
+func registryAtomic(c *Ctx, rule string, f *ssa.Function, freshGlob string) {
+	p := c.P
+	if !c.NeedFunc(rule, f, "registry lookup") {
+		return
+	}
+
+	isFresh := func(v ssa.Value) bool {
+		call, _ := CallOf(v)
+
+		return call != nil && Glob(freshGlob, p.CalleeName(call))
+	}
+	fromMap := func(v ssa.Value) bool {
+		v = Fwd(v)
+		if ex, ok := v.(*ssa.Extract); ok {
+			if _, isLookup := ex.Tuple.(*ssa.Lookup); isLookup {
+				return true
+			}
+		}
+
+		if _, isLookup := v.(*ssa.Lookup); isLookup {
+			return true
+		}
+
+		call, _ := CallOf(v)
+		if call == nil {
+			return false
+		}
+
+		cn := p.CalleeName(call)
+
+		return Glob("*HashTrieMap[*]).Load", cn) || Glob("*HashTrieMap[*]).LoadOrStore", cn) || Glob("(*sync.Map).Load*", cn)
+	}
+
+	nFresh := len(p.Calls(f, freshGlob))
+	if nFresh == 0 {
+		c.Unknown(rule, FuncName(f)+" :: one instance per key", fpos(f), "anchor-unresolved: no call that builds a fresh instance ("+freshGlob+")")
+
+		return
+	}
+
+	ok := true
+	detail := ""
+
+	for _, in := range Find(f, IsReturn) {
+		r := in.(*ssa.Return)
+
+		for _, leaf := range phiLeaves(r.Results[0]) {
+			switch {
+			case fromMap(leaf):
+			case isFresh(leaf):
+				// allowed only as double-checked insertion
+				store := func(i ssa.Instruction) bool {
+					mu, isMU := i.(*ssa.MapUpdate)
+
+					return isMU && isFresh(mu.Value)
+				}
+				absent := FactEdge("false(lookup(*)#1)", "nil(lookup(*))")
+				unlock := p.PlainCallTo("(*sync.Mutex).Unlock", "(*sync.RWMutex).Unlock", "(*sync.RWMutex).RUnlock")
+
+				if len(Find(f, store)) == 0 {
+					ok, detail = false, "a freshly built instance is returned without being inserted into the shared map"
+
+					continue
+				}
+
+				if bad, w := p.Reach(Entry(f), store, CutSpec{Edges: absent}); bad {
+					ok, detail = false, "fresh instance inserted without a lookup showing the key absent: "+strings.Join(w, " ")
+				}
+
+				lookup := func(i ssa.Instruction) bool { _, isLookup := i.(*ssa.Lookup); return isLookup }
+
+				if bad, w := p.Reach(After(f, unlock), store, CutSpec{Nodes: lookup}); bad {
+					ok, detail = false, "after a lock was released the fresh instance is inserted without re-checking the key (two first callers each get their own instance): "+strings.Join(w, " ")
+				}
+			default:
+				ok, detail = false, "returns "+p.Desc(leaf)
+			}
+		}
+	}
+
+	c.Check(ok, rule, FuncName(f)+" :: one instance per key", fpos(f), "returns what the shared map holds (atomic load-or-store)", detail)
+}
+
+func phiLeaves(v ssa.Value) []ssa.Value {
+	seen := map[ssa.Value]bool{}
+
+	var out []ssa.Value
+
+	var walk func(v ssa.Value)
+
+	walk = func(v ssa.Value) {
+		v = Fwd(v)
+		if seen[v] {
+			return
+		}
+
+		seen[v] = true
+
+		if phi, ok := v.(*ssa.Phi); ok {
+			for _, e := range phi.Edges {
+				walk(e)
+			}
+
+			return
+		}
+
+		out = append(out, v)
+	}
+
+	walk(v)
+
+	return out
+}
+
+// delegateOnce: the call matching globs is not re-reachable from itself (no retry loop around a
+// delegate whose arguments — the caller's object, a non-idempotent mutator — would be applied twice).
+func (c *Ctx) delegateOnce(rule string, f *ssa.Function, globs ...string) {
+	p := c.P
+	if f == nil || len(p.Calls(f, globs...)) == 0 {
+		return
+	}
+
+	c.NoReach(rule, "delegate "+strings.Join(globs, "|")+" is invoked at most once per call", f, After(f, p.CallTo(globs...)), 1, p.CallTo(globs...), CutSpec{})
 }
